@@ -20,8 +20,17 @@ Inductive hres := HOk | HErr (e : err) | HBool (b : bool) | HPanic
 (* one step: operation, result, GetVerifiedTransactions as ids, universe ids for which ContainsKey holds *)
 Definition hstep := (hop * hres * list N * list N)%type.
 
+(* an observation made by a reader goroutine in ONE read-lock region between two operations' regions:
+   (had the balances of the concurrent RemoveStale come into force?, listed ids, ids in the hash map) *)
+Definition hobs := (bool * list N * list N)%type.
+
 Inductive case :=
-| CSeq (capacity : nat) (U : list tx) (bal0 : list (payer * N)) (steps : list hstep).
+| CSeq (capacity : nat) (U : list tx) (bal0 : list (payer * N)) (steps : list hstep)
+| CConc (capacity : nat) (U : list tx) (bal0 : list (payer * N)) (steps : list hstep)
+        (ops : list (hop * hres)) (obs : list hobs) (ids keys : list N).
+    (* after the sequential prefix [steps], the operations [ops] were issued by one goroutine each under a forced
+       interleaving; each returned what is given; [obs] = what readers queued behind the write regions saw, in
+       real-time order; [ids]/[keys] = the getters after all had returned *)
 
 Definition dummy_tx : tx := mkTx 0 [] 0 0 1 false [] None.
 Definition utx (U : list tx) (i : nat) : tx := nth i U dummy_tx.
@@ -75,6 +84,84 @@ Fixpoint replay (c : cfg) (U : list tx) (rs : rstate) (height : N) (steps : list
              && replay c U rs' height' rest
       end
   end.
+
+(* one operation on the model; the same as one iteration of [replay] *)
+Definition hop_step (c : cfg) (U : list tx) (rs : rstate) (height : N) (o : hop) : res * list tx * rstate * N :=
+  match o with
+  | HAdd i => let '(x, y) := rstep c rs (RO (OAdd (utx U i)) height) in (fst x, snd x, y, height)
+  | HRemove h => let '(x, y) := rstep c rs (RO (ORemove h) height) in (fst x, snd x, y, height)
+  | HVerify i => let '(x, y) := rstep c rs (RO (OVerify (utx U i)) height) in (fst x, snd x, y, height)
+  | HHas i => (RBool (has_conflicts (st_pool (r_st rs)) (utx U i)), [], rs, height)
+  | HStale stale bal fpb h =>
+      let '(x, y) := rstep c rs (RO (OStale (isok_of stale) (bal_of bal) fpb) h) in (fst x, snd x, y, h)
+  | HSetResend t => let '(x, y) := rstep c rs (RSetResend t) in (fst x, snd x, y, height)
+  end.
+
+(* the model state after a sequence of steps (the results are checked by [replay]) *)
+Fixpoint replay_state (c : cfg) (U : list tx) (rs : rstate) (height : N) (steps : list hstep) : rstate * N :=
+  match steps with
+  | [] => (rs, height)
+  | (o, _, _, _) :: rest => let '(_, _, rs', height') := hop_step c U rs height o in replay_state c U rs' height' rest
+  end.
+
+Definition hres_ok (mr : res) (resent : list tx) (r : hres) : bool :=
+  match r with
+  | HResent l => (match mr with ROk => true | _ => false end) && nlist_eqb (map tid resent) l
+  | _ => res_eqb mr r
+  end.
+
+(* the operations one after another in the given order: None if some result differs from what the goroutine got,
+   else the model states after each of them *)
+Fixpoint lin_run (c : cfg) (U : list tx) (rs : rstate) (height : N) (ops : list (hop * hres)) : option (list rstate) :=
+  match ops with
+  | [] => Some []
+  | (o, r) :: rest =>
+      let '(mr, resent, rs', height') := hop_step c U rs height o in
+      if hres_ok mr resent r then
+        match lin_run c U rs' height' rest with Some l => Some (rs' :: l) | None => None end
+      else None
+  end.
+
+Definition state_matches (U : list tx) (ids keys : list N) (rs : rstate) : bool :=
+  nlist_eqb (obs_ids (st_pool (r_st rs))) ids && nlist_eqb (obs_keys U (st_pool (r_st rs))) keys.
+
+Fixpoint seek_state (m : rstate -> bool) (states : list rstate) : option (list rstate) :=
+  match states with
+  | [] => None
+  | s :: ss => if m s then Some states else seek_state m ss
+  end.
+(* the observations, in order, are states of the run at non-decreasing positions *)
+Fixpoint obs_embed (U : list tx) (states : list rstate) (obs : list hobs) : bool :=
+  match obs with
+  | [] => true
+  | (_, ids, keys) :: r =>
+      match seek_state (state_matches U ids keys) states with
+      | None => false
+      | Some st' => obs_embed U st' r
+      end
+  end.
+
+Fixpoint insert_all {A} (x : A) (l : list A) : list (list A) :=
+  match l with
+  | [] => [[x]]
+  | y :: r => (x :: l) :: map (cons y) (insert_all x r)
+  end.
+Fixpoint perms {A} (l : list A) : list (list A) :=
+  match l with
+  | [] => [[]]
+  | x :: r => flat_map (insert_all x) (perms r)
+  end.
+
+(* linearizable: for SOME order of the operations the model, run sequentially from the state after the prefix,
+   gives every goroutine the result it got, passes through the observed states in order and ends in the final one *)
+Definition linearizable (c : cfg) (U : list tx) (rs : rstate) (height : N) (ops : list (hop * hres))
+           (obs : list hobs) (ids keys : list N) : bool :=
+  existsb (fun order =>
+             match lin_run c U rs height order with
+             | None => false
+             | Some states =>
+                 state_matches U ids keys (last states rs) && obs_embed U (rs :: states) obs
+             end) (perms ops).
 
 (* F4 and F5 are repaired in /repo (commits 09a5b3f, aaf50e5): only the repaired mechanism is recognised.
    (While they were open the three legacy variants of [cfg] were accepted here as well, so that the harmless
@@ -200,6 +287,24 @@ Definition check_case (c : case) : N :=
         let st0 := mkR (mkState (new_pool capacity) (bal_of bal0)) [] 0 in
         let s := spec_steps U capacity (bal_of bal0) [] [] 0 [] 0 steps in
         let m := existsb (fun c => replay c U st0 0 steps) all_cfgs in
+        code_of (m && s) s
+      else 3
+  | CConc capacity U bal0 steps ops obs ids keys =>
+      if wf_universe 0 U && (length U <? 1000)%nat && (length ops <=? 4)%nat then
+        let st0 := mkR (mkState (new_pool capacity) (bal_of bal0)) [] 0 in
+        let pre_s := spec_steps U capacity (bal_of bal0) [] [] 0 [] 0 steps in
+        let pre_m := replay fixed_cfg U st0 0 steps in
+        let '(rs1, h1) := replay_state fixed_cfg U st0 0 steps in
+        (* the balances in force before / after the concurrent RemoveStale (if there is one) *)
+        let bal_pre := fold_left (fun b st => match st with (HStale _ b' _ _, _, _, _) => bal_of b' | _ => b end) steps (bal_of bal0) in
+        let bal_post := fold_left (fun b o => match o with (HStale _ b' _ _, _) => bal_of b' | _ => b end) ops bal_pre in
+        let has_stale := existsb (fun o => match o with (HStale _ _ _ _, _) => true | _ => false end) ops in
+        (* the property text on every observation: whenever a reader gets the lock, the invariant holds *)
+        let s := pre_s
+                 && forallb (fun o : hobs => let '(f, i, k) := o in obs_inv U capacity (if f then bal_post else bal_pre) i k) obs
+                 && obs_inv U capacity (if has_stale then bal_post else bal_pre) ids keys
+                 && forallb (fun o => match o with (_, HPanic) => false | _ => true end) ops in
+        let m := pre_m && linearizable fixed_cfg U rs1 h1 ops obs ids keys in
         code_of (m && s) s
       else 3
   end.
